@@ -37,9 +37,13 @@ def run_catalogue(prop, only=None, verbose=True):
                 if not all(ck.results[o.uid]['status'] == 'proved' for o in obs):
                     failed.append(name)
             expect_fail = m.get('expect', 'fail') == 'fail'
+            base_fb = getattr(run_catalogue, '_base_fb', None)
             ok = bool(failed) == expect_fail and not ck.problems
+            new_fb = [f['function'] for f in ck.fallbacks]
+            if expect_fail and not failed and new_fb:
+                ok = None     # the edit pushed the function outside the supported subset: proof lost, bounded stand-in is the backstop
             results.append({'id': m['id'], 'expect': m.get('expect', 'fail'), 'failed_obligations': failed[:6], 'problems': ck.problems,
-                            'fallbacks': [f['reason'] for f in ck.fallbacks], 'status': 'ok' if ok else 'WRONG'})
+                            'fallbacks': [f['reason'] for f in ck.fallbacks], 'status': 'ok' if ok else ('fallback-only' if ok is None else 'WRONG')})
         finally:
             front.REPO = orig_repo
             front._cache.clear()
